@@ -203,7 +203,15 @@ qb_ipcs_request_rate_limit(struct qb_ipcs_service *s,
 		} else {
 			qb_ipcs_flowcontrol_set(c, QB_FALSE);
 		}
-		if (old_p != s->poll_priority) {
+		/*
+		 * A disconnected connection stays in the list for as long as
+		 * somebody holds a reference, but its descriptors are closed
+		 * and removed from the mainloop: their numbers may belong to
+		 * another connection by now.
+		 */
+		if (old_p != s->poll_priority &&
+		    (c->state == QB_IPCS_CONNECTION_ACTIVE ||
+		     c->state == QB_IPCS_CONNECTION_ESTABLISHED)) {
 			(void)_modify_dispatch_descriptor_(c);
 		}
 		qb_ipcs_connection_unref(c);
